@@ -37,6 +37,8 @@ from harness.props.c01 import replay, binding_selftest, record_and_validate
 PID = 'C02'
 BOTH = ('crossnobis', 'poisson_cv')
 NOCOEF = [i for i in C.C02_INVS if i != 'CoefWithinFoldZero']   # data-independent: checked in the design runs
+# quick tier: the two theorems that recompute every product are checked on the 4-observation runs only
+LIGHT = [i for i in NOCOEF if i not in ('CvMatchesLeaveOneOut', 'CvSymmetric')]
 
 
 def _coef_chunk(args):
@@ -118,7 +120,7 @@ def run(ctx):
                          # precision 2 has unequal row sums: (1,..,1) is not an eigenvector, so centring only one
                          # side of the bilinear form is visible
                          methods=BOTH, rms=(False, True), precids=(0, 2), fprecids=(0, 1), priorids=(1,),
-                         foldsrcs=('explicit', 'default'), emitmod=2 if thorough else 4, invs=NOCOEF), 30),
+                         foldsrcs=('explicit', 'default'), emitmod=2 if thorough else 4, invs=NOCOEF if thorough else LIGHT), 30),
         ('cv_perm', dict(mode='cv', nobs=4, nch=2, nlab=2, nfold=3, datasrc='cat', dataids=(3,),
                          methods=BOTH, rms=(False, True), precids=(0, 2) if thorough else (0,), fprecids=(0, 2),
                          priorids=(1, 3), foldsrcs=('explicit', 'default') if thorough else ('explicit',),
